@@ -271,9 +271,11 @@ Local Open Scope R_scope.
 """
 
 
-def emit_file(units):
+def emit_file(units, stem="Units"):
     names = []
     for u in units:
         names += [u.name, u.name + "_v"] + [u.name + "__" + o for o in dict.fromkeys(u.out_names)]
     txt = HEADER + "\n".join(u.emit() for u in units)
+    # one tactic per file that unfolds every function-form unit of the file (never the _wp forms)
+    txt += "\nLtac %s_unfold :=\n  cbv beta iota zeta delta [%s nth].\n" % (sanitize(stem), " ".join(names))
     return txt
